@@ -1,12 +1,16 @@
 """C15 - every message reaches the peer completely, even when the transport writes short.
 
-1. TLC explores the design spec AdbWriter (header then payload, per-call capacity 1..4): the intended host loop
-   satisfies PeerGetsAll / InOrderNoGap; the deviation IgnoreShortWrite (finding F1 while open, a sanity mutation
-   once fixed) violates PeerGetsAll.
+1. TLC explores the design spec AdbWriter (two writers sharing the transport lock, header then payload, per-call
+   capacity 1..4, a write may fail): the intended host loop satisfies PeerGetsAll / InOrderNoGap / Contiguous /
+   LockFreeAtEnd; the sanity mutations IgnoreShortWrite (finding F1 before its repair), ResubmitStale and
+   LockPerCall each violate one of them.
 2. code->spec, in-memory: every capacity sequence over {1, 2, half, len-1, len} up to 4 calls (then unlimited), and
    random capacities, imposed on the transport for a scenario covering connect / shell / stat / list / pull / push,
    sync and async; the bytes the peer received are framed by the independent parser and judged by the frame
-   clauses of TraceEnv (a gap or truncation shows as C02.Framing / C02.Checksum / an incomplete frame).
+   clauses of TraceEnv (a gap or truncation shows as C02.Framing / C02.Checksum / an incomplete frame); a 70 KB
+   message accepted one byte per call; a write failing in the middle of a buffer at every write index (the call
+   raises or the peer has everything); schedules of three operations with short writes and a preemption point at
+   every bulk_write (the pieces of a message stay together).
 3. code->spec, real loopback TCP: TcpTransport and TcpTransportAsync with a transport timeout (non-blocking path)
    against a socket server running the simulator with a 4 KiB receive buffer and a slow reader; pushes with
    maxdata 64 KiB .. 1 MiB; the server-side byte stream is judged the same way and the pushed file must arrive intact.
@@ -17,7 +21,7 @@ import itertools
 import random
 import socket
 
-from .. import env, scen, simdev, sockdev, tlc
+from .. import env, scen, simdev, sockdev, tlc, tour, transports
 from ..framework import main, load_findings
 
 
@@ -132,18 +136,23 @@ def body(ctx):
     rng = random.Random(ctx.seed)
     f1 = any(f.status == 'open' and f.fid == 'F1' for f in load_findings())
     # 1. design
-    for ig in (False, True):
-        cfg = tlc.cfg_text(constants={'HdrLen': '3', 'PayLens': '{0,1,2,3}', 'MaxCap': '4', 'IgnoreShortWrite': 'TRUE' if ig else 'FALSE'},
-                           invariants=['PeerGetsAll', 'InOrderNoGap'], deadlock=True)
+    for (dev, expect) in ((None, None), ('IgnoreShortWrite', 'PeerGetsAll'), ('ResubmitStale', 'PeerGetsAll'), ('LockPerCall', 'Contiguous')):
+        consts = {'HdrLen': '3', 'PayLens': '{0,1,2,3}', 'MaxCap': '4', 'Writers': '{"a","b"}', 'MaxFails': '1',
+                  'IgnoreShortWrite': 'FALSE', 'ResubmitStale': 'FALSE', 'LockPerCall': 'FALSE'}
+        if dev:
+            consts[dev] = 'TRUE'
+        cfg = tlc.cfg_text(constants=consts, invariants=['PeerGetsAll', 'InOrderNoGap', 'Contiguous', 'LockFreeAtEnd'], deadlock=True)
         r = tlc.run('AdbWriter', cfg)
-        ctx.add_tlc(r, 'AdbWriter IgnoreShortWrite=%s' % ig)
+        ctx.add_tlc(r, 'AdbWriter %s' % (dev or 'intended'))
         names = [v['name'] for v in r.violations]
-        if not ig and names:
+        if dev is None and names:
             ctx.violation('C15.' + names[0] + '(design)', dict(kind='design-counterexample', state=r.violations[0]['trace'][-1][:400]))
             return
-        if ig and 'PeerGetsAll' not in names:
-            raise tlc.TlcError('vacuity: IgnoreShortWrite does not violate PeerGetsAll')
-        if ig and f1:
+        if dev and not names:
+            raise tlc.TlcError('vacuity: sanity mutation %s violates nothing' % dev)
+        if dev:
+            ctx.extra.setdefault('sanity_mutations_violate', {})[dev] = names[0]
+        if dev == 'IgnoreShortWrite' and f1:
             ctx.violation('C15.PeerGetsAll(design)', dict(kind='design-counterexample', deviation='IgnoreShortWrite', state=r.violations[0]['trace'][-1][:400]), finding='F1')
     # 2. in-memory capacities
     toks = ['1', '2', 'half', 'len-1', 'len']
@@ -161,6 +170,63 @@ def body(ctx):
         runs.append((mode, spec, ['random'], run_caps(mode, spec, [], rng=random.Random(ctx.seed + k))))
     judge(ctx, runs, 'in-memory short writes', f1)
     ctx.sample(dict(kind='short-writes', capacities=list(seqs[7]), mode='async'))
+    # 2b. one buffer that needs more than 65536 write calls (a WRITE larger than 64 KiB accepted one byte at a time)
+    runs = []
+    for mode in ('sync', 'async'):
+        spec = dict(seed=ctx.seed, maxdata=262144, rid='random', frag='whole', ops=[dict(api='push', path='/q', size=70000, src='bytesio', mtime=7, read_timeout_s=1.0)])
+        runs.append((mode, spec, ['always 1'], scen.run(dict(spec, connect_kw=dict(read_timeout_s=1.0)), mode, wcap=lambda n: 1)))
+    judge(ctx, runs, 'in-memory, one byte per write call, a 70 KB message', f1)
+    for (mode, spec, caps, rr) in runs:
+        got = rr.dev.fs.files.get('/q', {}).get('data')
+        if rr.outcomes[1].kind == 'ret' and (got is None or len(got) != 70000):
+            ctx.violation('C15.PeerGetsAll', dict(kind='short-writes', label='70 KB push, one byte per call', mode=mode, arrived=None if got is None else len(got)))
+    # 2c. a write fails in the middle of a buffer (after a short write) and the transport works again: either the call raises, or
+    #     the peer still got every byte - never a silent gap
+    nruns = 0
+    for mode in ('sync', 'async'):
+        for cap in (10, 7):
+            spec0 = dict(seed=ctx.seed, maxdata=4096, rid='random', frag='whole', stop_on_exc=True, stop_after_fault=True,
+                         ops=[dict(api='shell', decode=False, cmd='id', chunks=[b'uid=0'.hex()], read_timeout_s=1.0),
+                              dict(api='push', path='/q', size=60, src='bytesio', mtime=7, read_timeout_s=1.0)])
+            base = scen.run(dict(spec0, connect_kw=dict(read_timeout_s=1.0)), mode, wcap=lambda n, c=cap: min(n, c))
+            calls = base.sess.core.calls
+            if any(o.kind == 'exc' for o in base.outcomes):
+                raise tlc.TlcError('short-write baseline raises')
+            ks = [k for k, c in enumerate(calls) if c[0] == 'bulk_write']
+            if ctx.quick:
+                ks = ks[::2] if cap == 7 else ks
+            batch = []
+            for k in ks:
+                for kind in ('timeout',) if ctx.quick else ('timeout', 'reset'):
+                    rr = scen.run(dict(spec0, connect_kw=dict(read_timeout_s=1.0)), mode, wcap=lambda n, c=cap: min(n, c), fault=transports.Fault(at={k: kind}))
+                    batch.append((mode, spec0, ['always %d' % cap, 'fault %s at call %d' % (kind, k)], rr))
+            nruns += len(batch)
+            traces = [scen.project_events(rr, spec) for (_, spec, _, rr) in batch]
+            ver, r = tlc.validate_traces('TraceEnv', traces)
+            ctx.add_tlc(r, 'TraceEnv: a failed write in the middle of a buffer, %s, %d bytes per call (%d runs)' % (mode, cap, len(batch)))
+            for (i, l, v) in ver:
+                _, _, caps, rr = batch[i]
+                raised = any(o.kind == 'exc' for o in rr.outcomes)     # the session ends with the operation in which the fault struck
+                if not raised and (v.startswith('C02.') or rr.sess.core.hbuf):
+                    ctx.violation('C15.NeverSilentlyTruncated', dict(kind='short-writes+fault', mode=mode, capacities=caps, frame_clause=v, pending_bytes=len(rr.sess.core.hbuf),
+                                                                      outcomes=[o.kind for o in rr.outcomes]))
+                else:
+                    ctx.count(traces=1, evaluations=1)
+    ctx.extra['failed_write_mid_buffer_runs'] = nruns
+    # 2d. short writes with a second thread / task queued on the transport lock: the pieces of one message stay together
+    for mode in ('sync', 'async'):
+        prog, rep = {'t1': ['shell'], 't2': ['shell'], 't3': tour.PUSH2}, {'t1': [[1]], 't2': [[1, 2]], 't3': [[]]}
+        res = []
+        for k in range(25 if ctx.quick else 600):
+            res += tour.explore(mode, prog, rep, 1, random.Random(ctx.seed * 31 + k), write_yield=True,
+                                wcap=lambda r_: (lambda n, r2=random.Random(r_.random()): r2.randint(1, max(1, min(n, 16)))))
+        v2, r2 = tlc.validate_traces('TraceEnv', [t for t, _ in res])
+        ctx.add_tlc(r2, 'TraceEnv over %d %s schedules of three operations with short writes' % (len(res), mode))
+        for (i, l, v) in v2:
+            if v.startswith('C02.'):
+                ctx.violation('C15.PeerGetsAll', dict(kind='schedule+short-writes', mode=mode, frame_clause=v, schedule=res[i][1]['schedule'][:200]))
+            else:
+                ctx.count(traces=1, evaluations=1)
     # 3. loopback
     lb = []
     for mode in ('sync', 'async'):
